@@ -7,6 +7,18 @@ import (
 	"go.pennock.tech/tabular"
 )
 
+type ptrErr struct{ msg string }
+
+func (p *ptrErr) Error() string {
+	if p == nil {
+		return "typed nil error"
+	}
+	return p.msg
+}
+
+// typedNilErr is a non-nil error interface holding a nil *ptrErr.
+var typedNilErr error = (*ptrErr)(nil)
+
 // ecModel is a standalone error container with its expected content.
 type ecModel struct {
 	real   *tabular.ErrorContainer
@@ -79,6 +91,14 @@ func (w *World) DoErr(st *Step) bool {
 		if st.B == 1 {
 			w.Tab.AddError(nil)
 			w.probe("nil_error_added")
+			return true
+		}
+		if st.B == 2 {
+			// an error VALUE that happens to be a nil pointer of a concrete type: the
+			// interface is not nil, so it is an error like any other
+			w.Tab.AddError(typedNilErr)
+			w.unknownErr++
+			w.Faults["typed_nil_error"]++
 			return true
 		}
 		e := w.newErr("table")
@@ -154,6 +174,14 @@ func (w *World) DoErr(st *Step) bool {
 		m := w.ecs[i]
 		if st.B == 1 {
 			m.real.AddError(nil)
+			return true
+		}
+		if st.B == 2 {
+			m.real.AddError(typedNilErr)
+			if !m.isNil {
+				m.want = append(m.want, typedNilErr)
+			}
+			w.Faults["typed_nil_error"]++
 			return true
 		}
 		e := w.newErr(fmt.Sprintf("ec#%d", i))
@@ -320,7 +348,7 @@ func (w *World) CheckC11(op string) *Violation {
 			return v("ec-count", "container#%d reports %d errors, %d non-nil errors were added", i, len(ge), len(m.want))
 		}
 		for j := range ge {
-			if ge[j] == nil {
+			if ge[j] == nil { // (a typed nil pointer inside the interface is not == nil)
 				return v("ec-nil-entry", "container#%d Errors()[%d] is nil", i, j)
 			}
 			if ge[j] != m.want[j] {
